@@ -8,4 +8,4 @@ THEOREMS = ["Parmcb.C06.c06_k0", "Parmcb.C06.c06_k1", "Parmcb.C06.c06_spanner_pa
             "Parmcb.C02.c06_heap_dijkstra_is_oracle_run", "Parmcb.C02.c05_approx_signed_heap_end_to_end", "Parmcb.C02.c05_approx_fvs_trees_heap_end_to_end", "Parmcb.C02.c05_approx_iso_trees_heap_end_to_end"]
 def the_oracle(case, k, block, mu): return oracle_c06(case, k, block, mu)
 def run(tier, replay=None):
-    return c05.run(tier, replay, pid="C06", theorems=THEOREMS, oracle=the_oracle, ks=(0, 1, 2, 3, 4, 7), need_mu=True, module="Parmcb")
+    return c05.run(tier, replay, pid="C06", theorems=THEOREMS, oracle=the_oracle, ks=(0, 1, 2, 3, 4, 7, 2 ** 31), need_mu=True, module="Parmcb")
